@@ -108,7 +108,8 @@ mut("c12-fill-on-copy", "C12", I,
     "fill works on a copy")
 mut("c12-spike-no-abs", "C12", I,
     "        pts_over_nsigma = abs(self.data) > nsigma * self.std",
-    "        pts_over_nsigma = self.data > nsigma * self.std", "negative spikes survive")
+    "        pts_over_nsigma = self.data > nsigma * self.std",
+    "negative spikes survive: changes WHICH samples spike_clip invalidates, which no clause of C12 fixes (it may only invalidate) -> silence is the right verdict; kept as a false-alarm probe")
 mut("c12-Sa-total-size", "C12", "prysm/util.py",
     "    return abs(ary - mean).sum() / ary.size", "    return abs(ary - mean).sum() / array.size",
     "Sa divides by the total size incl. invalid samples")
